@@ -1255,7 +1255,7 @@ def check_c07(tier, seed, log=print):
         if st is None:
             continue
         for idx, (chosen, fam) in r['pfx'].items():
-            if any(l.cb in (20, 21, 22) for l in corpus[idx].leaves):
+            if any(l.cb in (20, 21, 22, 29) for l in corpus[idx].leaves):
                 continue   # bumping callbacks look at the text after the match: their result legitimately depends on later input
             for S in chosen:
                 full = st.get((idx, 'n', P.hexs(S)))
@@ -1330,7 +1330,7 @@ def check_c07(tier, seed, log=print):
         if st is None:
             continue
         for idx, fl in r.get('feeds', {}).items():
-            if any(l.cb in (20, 21, 22) for l in corpus[idx].leaves):
+            if any(l.cb in (20, 21, 22, 29) for l in corpus[idx].leaves):
                 continue
             for (t, S) in fl:
                 fv = st.get((idx, 'f' + t, P.hexs(S)))
@@ -1515,7 +1515,7 @@ def check_c12(tier, seed, log=print):
     # ... and the definitions whose callbacks bump: Lexer::bump goes through the source's own is_boundary, the one place where the two
     # source types decide differently at run time
     def bumps(d):
-        return any(l.cb in (20, 21, 22) for l in d.leaves)
+        return any(l.cb in (20, 21, 22, 29) for l in d.leaves)
     # (every hand-written mode-sensitive definition is taken, those with subpatterns first: twice already a definition added for a
     # missed change had slipped out of the quick selection again when others were added in front of it)
     ms = [d for d in allb if mode_sensitive(d) and not bumps(d)]
